@@ -248,7 +248,13 @@ unsigned int irc_pton(irc_inaddr *addr, unsigned int *bits, const char *input, i
         }
         /* All eight groups were read and the text ended in a colon form
          * ("1:2:3:4:5:6:7::"): this is a whole address as well. */
-        if (bits)
+        if (bits && input[pos] == '/' && isdigit(input[pos + 1])) {
+            for (part = 0; isdigit(input[++pos]); )
+                part = part * 10 + input[pos] - '0';
+            if (part > 128)
+                return 0;
+            *bits = part;
+        } else if (bits)
             *bits = 128;
     finish:
         /* Shift stuff after "::" up and fill middle with zeros. */
